@@ -28,6 +28,16 @@ def chain(node):
 
 def check_pair(start, end, labels):
     cs, ce = chain(start), chain(end)
+    if cs[-1] is not ce[-1]:
+        # different trees: WalkError, in both directions
+        for x, y in ((start, end), (end, start)):
+            try:
+                Walker().walk(x, y)
+            except WalkError:
+                pass
+            else:
+                raise Violation("walkerror", "walk(%s, %s) across trees did not raise WalkError" % (labels.label(x), labels.label(y)))
+        return False
     ids_e = {id(n) for n in ce}
     common = next(n for n in cs if id(n) in ids_e)  # deepest node on both chains
     up_exp = []
@@ -97,7 +107,14 @@ def check_case(case, acc):
                 pass
             else:
                 raise Violation("walkerror", "walk across trees did not raise WalkError")
-    acc.evaluations += len(pairs) + 2 * len(cross) - 1  # one evaluation = one walk() call that is checked
+    # read - mutate - read again on the same node objects
+    for op in case.get("mutations", []):
+        refs.mutate_tree(tree, op)
+        for a, b in pairs:
+            if check_pair(tree[a], tree[b], labels):
+                nontrivial += 1
+        acc.tag("pairs_rechecked_after_mutation", len(pairs))
+    acc.evaluations += len(pairs) * (1 + len(case.get("mutations", []))) + 2 * len(cross) - 1  # one evaluation = one walk() call that is checked
     acc.tag("pairs", len(pairs))
     acc.tag("cross_pairs", 2 * len(cross))
     acc.tag("nontrivial_pairs", nontrivial)
@@ -113,7 +130,9 @@ def _enum_cases(max_nodes, index, count):
     for shape in shapes.trees_upto(max_nodes):
         k += 1
         if k % count == index:
-            yield {"shape": forest.to_list(shape), "other": [[], [[]]], "cls": "Node" if k % 3 else "SlotLM", "enumerated": True}
+            size = shapes.shape_size(shape)
+            # every enumerated shape is also re-checked after moving its last node under the root's first child and after detaching node 1
+            yield {"shape": forest.to_list(shape), "other": [[], [[]]], "cls": "Node" if k % 3 else "SlotLM", "enumerated": True, "mutations": [["move", size - 1, 1], ["detach", 1], ["move", 0, size - 1]] if size >= 3 else []}
 
 
 @st.composite
@@ -125,7 +144,7 @@ def random_cases(draw):
     idx = st.integers(0, size - 1)
     pairs = draw(st.lists(st.tuples(idx, idx).map(list), min_size=1, max_size=30))
     cross = draw(st.lists(st.tuples(idx, st.integers(0, osize - 1)).map(list), min_size=1, max_size=5))
-    return {"shape": shape, "other": other, "pairs": pairs, "cross": cross, "cls": draw(st.sampled_from(nodes.TREE_CLASSES))}
+    return {"shape": shape, "other": other, "pairs": pairs, "cross": cross, "cls": draw(st.sampled_from(nodes.TREE_CLASSES)), "mutations": draw(strategies.tree_mutations())}
 
 
 def plan(tier, seed):
